@@ -336,3 +336,11 @@ Proof. intro H. rewrite dir_reverse_is_rev_range. split; [apply length_rev_range
 
 (* outside the precondition the C function does leave the array: one witness is enough to show the
    precondition is not idle -- see the Example in Properties_C18.v *)
+
+(* deciding the side conditions on concrete arrays (for the Examples) *)
+Lemma ints_ok_dec l : forallb (fun z => (-2147483648 <=? z) && (z <=? 2147483647)) l = true -> ints_ok l.
+Proof. unfold ints_ok. rewrite forallb_forall, Forall_forall. intros H x Hin. specialize (H x Hin). lia. Qed.
+Lemma next_ok_dec l (cur : bool) : forallb (fun x => -2147483648 <=? x - (if cur then 0 else 1)) l = true -> next_ok l cur.
+Proof. unfold next_ok. rewrite forallb_forall, Forall_forall. intros H x Hin. specialize (H x Hin). lia. Qed.
+Lemma prev_ok_dec l (cur : bool) : forallb (fun x => x + (if cur then 0 else 1) <=? 2147483647) l = true -> prev_ok l cur.
+Proof. unfold prev_ok. rewrite forallb_forall, Forall_forall. intros H x Hin. specialize (H x Hin). lia. Qed.
